@@ -1573,3 +1573,18 @@ Proof.
     destruct H as (-> & -> & ->). reflexivity.
   - rewrite E1, filter_app in F1. cbn [filter] in F1. rewrite E2, app_length in F1. cbn [length] in F1. lia.
 Qed.
+
+(* every plain getter of a table that passed ok_accessors reads the documented field with the
+   documented reading *)
+Theorem ok_accessors_plain_getter sp t g : ok_accessors sp t = true -> In g t -> r_role g = RGetter -> r_op g = OGet ->
+  exists e, find_spec sp (r_ty g) (r_method g) = Some e /\
+    r_fields g = [s_field e] /\ reading_ok (s_reading e) (r_codec g) = true /\
+    (s_exception e = true \/ title_hyphen (r_method g) = s_field e) /\
+    forall c arg cs, getter c TI g arg cs = decode c (r_codec g) (l_get (pitems cs) (s_field e)).
+Proof.
+  intros Hok Hg Hr Ho. destruct (ok_accessors_getter sp t g Hok Hg Hr) as (e & He & Hp).
+  assert (Hgt : ok_getter e g = true).
+  { destruct (find_row t (r_ty g) (setter_name (r_method g))); [|exact Hp]. unfold ok_pair in Hp. apply andb_true_iff in Hp. apply Hp. }
+  destruct (ok_getter_field e g Hgt Ho) as (F & Rd & Nm). exists e. split; [exact He|]. split; [exact F|]. split; [exact Rd|]. split; [exact Nm|].
+  intros c arg cs. rewrite (getter_refines TI pitems TI_refines). apply getter_LI_field; [unfold row_field; rewrite Ho, F; reflexivity|rewrite Ho; reflexivity].
+Qed.
